@@ -92,6 +92,26 @@ def unit_cases(chk, rng, n):
             if out is None or core.is_ascii(out):
                 add(f"CInitial {coq_str(prefix)} {coq_str(expr)} {coq_opt(out, coq_str)}",
                     {"f": "initial", "line": line, "impl": out})
+    # --- kind / length selectors with literals: declarations, typed FUNCTION statements (prefix parsed with the
+    #     line's literal table), typed functions inside interface blocks
+    sels = []
+    for i in range(max(6, n // 5)):
+        k = rng.choice([1, 1, 2])
+        fn = rng.choice(["kind", "len"])
+        sel = "+".join(f"{fn}({G.lit_selector(rng)})" for _ in range(k)) if fn == "len" else f"kind({G.lit_selector(rng)})"
+        if not ok_text(sel):
+            continue
+        where = rng.choice(["decl", "function", "function", "interface"])
+        typ, key = ("integer", "kind") if fn == "kind" else ("character", "len")
+        sels.append((f"s{i}", where, f"{typ}({key}=", sel, key))
+    for chunk in [sels[i:i + 8] for i in range(0, len(sels), 8)]:
+        for (name, where, pre, sel, key), out in zip(chunk, _parse_selectors(chunk)):
+            post = {"decl": f") :: {name}", "function": f") function {name}()", "interface": f") function {name}()"}[where]
+            out = None if out is None else tr(out)
+            if out is not None and not core.is_ascii(out):
+                continue
+            add(f"CSelector {coq_str(pre)} {coq_str(sel)} {coq_str(post)} {coq_opt(out, coq_str)}",
+                {"f": "selector", "where": where, "statement": pre + sel + post, "impl": out})
     # --- PARAMETER statements
     pst = []
     for i in range(max(4, n // 6)):
@@ -127,6 +147,41 @@ def unit_cases(chk, rng, n):
         text, nt = R.html_view(x)
         add(f"CView {coq_str(x)} {coq_str(text)} {nt}", {"f": "html-view", "x": x, "text": text, "tags": nt})
     return cases
+
+
+def _parse_selectors(chunk):
+    """-> kind / strlen as stored by the real parser for each (name, where, pre, sel, key); None when the
+    statement (or, with it, the whole file) could not be parsed"""
+    decl = [f"{pre}{sel}) :: {name}" for (name, where, pre, sel, key) in chunk if where == "decl"]
+    iface = []
+    for (name, where, pre, sel, key) in chunk:
+        if where == "interface":
+            iface += [f"{pre}{sel}) function {name}()", f"end function {name}"]
+    body = []
+    for (name, where, pre, sel, key) in chunk:
+        if where == "function":
+            body += [f"{pre}{sel}) function {name}()", f"{name} = {'1' if key == 'kind' else chr(39) + 'x' + chr(39)}",
+                     f"end function {name}"]
+    lines = decl + (["interface"] + iface + ["end interface"] if iface else []) + ["contains"] + body
+    mod, _calls, _log = R.parse_lines(lines)
+    if mod is None:
+        if len(chunk) == 1:
+            return [None]
+        return [x for c in chunk for x in _parse_selectors([c])]
+    vals = {}
+    for v in mod.variables:
+        vals[v.name] = v
+    for f in mod.functions:
+        vals[f.name] = f.retvar
+    for it in mod.interfaces:
+        pr = getattr(it, "procedure", None)
+        if pr is not None:
+            vals[pr.name] = pr.retvar
+    out = []
+    for (name, where, pre, sel, key) in chunk:
+        v = vals.get(name)
+        out.append(None if v is None or isinstance(v, str) else (v.kind if key == "kind" else v.strlen))
+    return out
 
 
 def _parse_chunk(chunk):
@@ -227,6 +282,12 @@ contains
     integer(kind=kind(k<n)) :: r
     r = x
   end function f
+  character(len=len("re<s>")) function fl()
+    fl = "x"
+  end function fl
+  integer(kind=kind("x\\y")) function fk()
+    fk = 1
+  end function fk
 end module m
 """
 
@@ -277,6 +338,10 @@ def witness_facts():
         rv = [R.squash(R.browser_text(h)) for h in tp.find_all(["h3", "h4"]) if R.browser_text(h).startswith("Return Value")]
         facts["probe:macros.html:proc.retvar.full_declaration | relurl(page_url)#2"] = \
             bool(rv) and not any("integer(kind=kind(k<n))" in x for x in rv)
+        for fname, want in (("fl", 'character(len=len("re<s>"))'), ("fk", 'integer(kind=kind("x\\y"))')):
+            fp = BeautifulSoup(_page(doc, f"proc/{fname}.html"), "html.parser")
+            rv = [R.squash(R.browser_text(h)) for h in fp.find_all(["h3", "h4"]) if R.browser_text(h).startswith("Return Value")]
+            facts["fixed:function-prefix-literal/" + fname] = not any(want in x for x in rv)
         pp = BeautifulSoup(_page(doc, "proc/f.html"), "html.parser")
         rv = [R.squash(R.browser_text(h)) for h in pp.find_all(["h3", "h4"]) if R.browser_text(h).startswith("Return Value")]
         facts["probe:proc_page.html:procedure.retvar.full_declaration | relurl(page_url)#1"] = \
